@@ -115,7 +115,7 @@ def main():
         "setup_cmd": "./check build",
         "hooks": {
             "guard": "verif",
-            "enable": "go1.26.8 test -c -tags verif -overlay <generated>: four add-only //go:build verif files from /verif/hooks are overlaid at build time (internal/feeder/bastion/zz_verif_export.go: handler constructor and an exported alias of parseBody; omniwitness/zz_verif_export.go: witnessAdapter constructor - for these two the constructor expressions are first copied from the tree under test, the files in hooks/ are the fallback; cmd/feedbastion/zz_verif_writer_test.go: writer-side test for C11 in package main; omniwitness/zz_verif_shipped32_test.go: C17 on a GOARCH=386 build); nothing in /repo is edited for instrumentation; source_commits is empty (the commits in /repo are fix: commits, unguarded by design)",
+            "enable": "go1.26.8 test -c -tags verif -overlay <generated>: four add-only //go:build verif files from /verif/hooks are overlaid at build time (internal/feeder/bastion/zz_verif_export.go: handler constructor and an exported alias of parseBody; omniwitness/zz_verif_export.go: witnessAdapter constructor - for these two the constructor expressions are first copied from the tree under test, the files in hooks/ are the fallback; cmd/feedbastion/zz_verif_writer_test.go: writer-side test for C11 in package main; omniwitness/zz_verif_shipped32_test.go: C17 on a GOARCH=386 build); in addition the harness file sim/zz_prodopen.go is overlaid by a copy of the statements with which cmd/omniwitness/monolith.go opens --db_file, so that crash children open their store as production does; nothing in /repo is edited for instrumentation; source_commits is empty (the commits in /repo are fix: commits, unguarded by design)",
             "baseline_off_cmd": "cd /repo && go test -vet=off -count=1 ./...",
             "source_commits": [],
             "add_only": True,
